@@ -115,6 +115,8 @@ pub mod h_recv;
 pub mod h_err;
 #[cfg(any(all(kani, feature = "k_q"), all(not(kani), feature = "k_native")))]
 pub mod h_hist;
+#[cfg(any(all(kani, feature = "k_q"), all(not(kani), feature = "k_native")))]
+pub mod h_set;
 #[cfg(any(all(kani, feature = "k_q", feature = "bigfd"), all(not(kani), feature = "k_native")))]
 pub mod h_many;
 #[cfg(any(all(kani, feature = "k_rec"), all(not(kani), feature = "k_native")))]
@@ -137,6 +139,7 @@ pub fn lookup(name: &str) -> Option<fn()> {
         .or_else(|| h_ser::lookup(name))
         .or_else(|| h_err::lookup(name))
         .or_else(|| h_hist::lookup(name))
+        .or_else(|| h_set::lookup(name))
 }
 
 /// compiled once per feature set to warm the dependency cache (vlib/kanirun.py: seed_target)
